@@ -53,7 +53,10 @@ def run(tier):
     # two exporters (and the readers of their outputs) alive at once and operated alternately on one thread: each behaves
     # as if it were alone
     rng3 = rng_for(chk, 102)
-    hs3 = [histgen.gen_history(rng3, nops=rng3.choice([10, 25, 40]), comp=["none", "none", "gz", "xz"][i % 4], sizes=[1, 2, 3, 10000])
+    # (histories 2k and 2k+1 form a pair: both of the same compression in two pairs of three, so that two gzip / two xz
+    #  exporters are alive at once and rotate while the other one is in the middle of its stream)
+    hs3 = [histgen.gen_history(rng3, nops=rng3.choice([10, 25, 40]),
+                               comp=(["none", "gz", "xz"][(i // 2) % 3] if (i // 2) % 3 else ["none", "gz", "xz", "none"][i % 4]), sizes=[1, 2, 3, 10000])
            for i in range(40 if tier == "quick" else 600)]
     hs3 = [histgen.add_external_block_ops(rng3, h) if k % 3 == 0 else h for k, h in enumerate(hs3)]
     m3 = run_interleaved(chk, hs3, {"C01"}, label="c01i")
